@@ -7,22 +7,22 @@ Import ListNotations.
 (* With any combination of the options (and with or without abort_on_first) the verdict is
    'conforms' exactly when every reported top-level result has a waived severity
    (with no waiver: exactly when there is no result). *)
-Theorem C11_verdict : forall trig o sg g E c rs,
-  validate trig o sg g E = Ok (c, rs) -> c = all_waived (eopts_of o) rs.
+Theorem C11_verdict : forall trig W o sg g E c rs,
+  validate trig W o sg g E = Ok (c, rs) -> c = all_waived (eopts_of o) rs.
 Proof. exact validate_verdict. Qed.
 Print Assumptions C11_verdict.
 
 (* Turning the options on or off never changes which results are reported
    (same list, hence same set; same failure if the run fails). *)
-Theorem C11_same_results : forall trig o o' sg g E, same_but_waivers o o' ->
-  res_snd (validate trig o sg g E) = res_snd (validate trig o' sg g E).
+Theorem C11_same_results : forall trig W o o' sg g E, same_but_waivers o o' ->
+  res_snd (validate trig W o sg g E) = res_snd (validate trig W o' sg g E).
 Proof. exact validate_same_results. Qed.
 Print Assumptions C11_same_results.
 
 (* conforms(default) -> conforms(allow_infos) -> conforms(allow_warnings) *)
-Theorem C11_monotone : forall trig o o' sg g E c rs c' rs', same_but_waivers o o' ->
+Theorem C11_monotone : forall trig W o o' sg g E c rs c' rs', same_but_waivers o o' ->
   incl (allowed_severities o) (allowed_severities o') ->
-  validate trig o sg g E = Ok (c, rs) -> validate trig o' sg g E = Ok (c', rs') ->
+  validate trig W o sg g E = Ok (c, rs) -> validate trig W o' sg g E = Ok (c', rs') ->
   rs = rs' /\ (c = true -> c' = true).
 Proof. exact validate_monotone. Qed.
 Print Assumptions C11_monotone.
@@ -48,6 +48,6 @@ Definition U : shape := {| sid := IRI 102; spath := None; deact := false; ssev :
                            scomps := [CLeaf (LIn [])] |}.
 Definition oo (i w:bool) := {| abort := false; allow_infos := i; allow_warnings := w; max_depth := 15; focus_filter := [] |}.
 Example C11_nonvacuous :
-  validate_impl (oo false false) [] [] [S; T; U] = Ok (false, [VR (IRI 7) (Some (IRI 7)) sh_InConstraintComponent (IRI 102) t_Info []])
-  /\ validate_impl (oo true false) [] [] [S; T; U] = Ok (true, [VR (IRI 7) (Some (IRI 7)) sh_InConstraintComponent (IRI 102) t_Info []]).
+  validate_impl0 (oo false false) [] [] [S; T; U] = Ok (false, [VR (IRI 7) (Some (IRI 7)) None sh_InConstraintComponent (IRI 102) t_Info []])
+  /\ validate_impl0 (oo true false) [] [] [S; T; U] = Ok (true, [VR (IRI 7) (Some (IRI 7)) None sh_InConstraintComponent (IRI 102) t_Info []]).
 Proof. vm_compute. split; reflexivity. Qed.
